@@ -34,6 +34,7 @@ RULE += (' Also: property values that happen to be awaitable.')
 RULE += (' Also: frozen hosts (__setattr__ raises).')
 RULE += (' Also: probe locks offer locked().')
 RULE += (" Also: deletion by replacing the instance's __dict__.")
+RULE += (' Also: a subclass overriding the cached property and awaiting super().p.')
 ASSUMPTIONS = ["awaiting a handle taken while a value was cached returns that value (unspecified after del; accepted)",
                "the getter's own suspensions are the only scheduling points besides lock waits"]
 EXHAUSTIVE_SUBSPACES = 'all operation sequences of length <= 5 (thorough: 6) over 7 operations; DFS-complete schedule sets for the scenarios counted in scenarios_explored_exhaustively'
@@ -47,6 +48,11 @@ SEQ_OPS = ["await0", "take0", "awaith_new", "awaith_old", "del0", "failnext", "a
 
 def cases(tier, seed, shard, nshards):
     idx = 0
+    if shard == 0:
+        for base_lock in (False, True):
+            for child_lock in (False, True):
+                for susp in (0, 1):
+                    yield {"kind": "override", "base_lock": base_lock, "child_lock": child_lock, "susp": susp}
     maxlen = 5 if tier == "quick" else 6
     for n in range(1, maxlen + 1):
         for ops in itertools.product(SEQ_OPS, repeat=n):
@@ -461,7 +467,73 @@ def run_conc(case, stats):
             "sample": dict(case, example_schedule=[list(map(str, t)) for t in list(traces)[:1]])}
 
 
+def run_override(case, stats):
+    """A subclass OVERRIDES the cached property and builds on the parent's value (``await super().p``): two descriptors
+    share one attribute name on the instance.  Each getter still runs once per cached value, the value is the child's,
+    deletion recomputes, instances stay apart - and nothing recurses or blocks."""
+    from ..loop import Driver, rr_strategy
+    CTX.reset()
+    RegLock.registry.clear()
+    runs = Counter()
+
+    def deco(fn, lock):
+        return A.cached_property(RegLock)(fn) if lock else A.cached_property(fn)
+
+    async def base_p(self):
+        runs["base"] += 1
+        if case["susp"]:
+            await Suspend(("base", runs["base"]), 1)
+        return ("base", runs["base"])
+
+    async def child_p(self):
+        runs["child"] += 1
+        inner = await super(Child, self).p
+        if case["susp"]:
+            await Suspend(("child", runs["child"]), 1)
+        return ("child", inner, runs["child"])
+
+    Base = type("Base", (), {"p": deco(base_p, case["base_lock"])})
+    Base.p.__set_name__(Base, "p")
+    Child = type("Child", (Base,), {"p": deco(child_p, case["child_lock"])})
+    Child.p.__set_name__(Child, "p")
+    out = []
+
+    async def main():
+        a, b = Child(), Child()
+        out.append(await a.p)
+        out.append(await a.p)
+        out.append(await b.p)
+        del a.p
+        out.append(await a.p)
+        out.append(await b.p)
+
+    viols = []
+    driver = Driver(rr_strategy())
+    task = driver.spawn("main", main())
+    try:
+        driver.run()
+    except RecursionError as exc:
+        viols.append({"key": "cached_property/override-recursion", "msg": f"overridden cached property {case}: {exc!r}"})
+    if driver.deadlock or not task.done:
+        viols.append({"key": "cached_property/deadlock", "msg": f"overridden cached property {case}: never finished, got {out}"})
+    elif task.exc is not None:
+        viols.append({"key": "cached_property/override-raised", "msg": f"overridden cached property {case}: {task.exc!r}"})
+    else:
+        want = [("child", ("base", 1), 1), ("child", ("base", 1), 1), ("child", ("base", 2), 2), ("child", ("base", 3), 3),
+                ("child", ("base", 2), 2)]
+        if out != want:
+            viols.append({"key": "cached_property/override-values",
+                          "msg": f"overridden cached property {case}: awaits gave {out}, expected {want}"})
+    if CTX.foreign:
+        viols.append({"key": "cached_property/foreign-suspension", "msg": CTX.foreign[0]})
+    stats["overridden_property_runs"] += 1
+    return {"violations": viols, "evals": 1, "distinct": 1, "nontrivial": True, "sig": ("override", str(case)),
+            "sample": dict(case)}
+
+
 def run_case(case, stats: Counter):
+    if case["kind"] == "override":
+        return run_override(case, stats)
     if case["kind"] == "seq":
         return run_seq(case, stats)
     return run_conc(case, stats)
